@@ -136,6 +136,19 @@ where T: StructDiff + Fconv + Clone,
                     }
                 }
             }
+            // the serialized owned diff decodes as itself and has the same effect
+            let on: Option<Vec<T::Diff>> = guard(|| nanoserde::DeBin::deserialize_bin(&nsb).ok()).flatten();
+            let ob: Option<Vec<T::Diff>> = guard(|| bincode::deserialize(&bcb).ok()).flatten();
+            for (tag, dd) in [("N", on), ("B", ob)] {
+                match dd {
+                    None => { writeln!(out, "{} AO{} UNDECODABLE", id, tag).unwrap(); }
+                    Some(dd) => {
+                        line(out, id, &format!("DO{}", tag), Some(show_diff(&dd)));
+                        line(out, id, &format!("AO{}", tag), guard(|| vs(&a.clone().apply(dd.clone()).tv(0))));
+                        line(out, id, &format!("XO{}", tag), guard(|| vs(&x.clone().apply(dd.clone()).tv(0))));
+                    }
+                }
+            }
         }
     }
 }
